@@ -55,9 +55,13 @@ pub struct Knobs {
     /// scripts end by probing `GTF InputContractOutputIndex` for a few input indices and logging the answers (the only
     /// observer of the interpreter's input-index -> output-index map; a non-contract index panics InputNotFound)
     pub gtf_probe: bool,
+    /// contract-id operands also point at SPECIAL ids that are never among the inputs: the all-zero id (script data slot,
+    /// the base-asset bytes at VM address 32, fresh zeroed heap), the all-0xff id, the transaction id (VM address 0), a
+    /// listed id with its last byte flipped; and, as a positive control in contracts, the own id at `$fp`
+    pub special_ids: bool,
 }
 impl Knobs {
-    pub fn normal() -> Self { Knobs { fault_pm: 30, unlisted_pm: 0, max_blocks: 10, coins: true, call_heavy: false, code_ops: false, gtf_probe: false } }
+    pub fn normal() -> Self { Knobs { fault_pm: 30, unlisted_pm: 0, max_blocks: 10, coins: true, call_heavy: false, code_ops: false, gtf_probe: false, special_ids: false } }
 }
 
 fn gp(rng: &mut Rng) -> u8 { GP_LO + rng.below(GP_N as u64) as u8 }
@@ -119,6 +123,27 @@ fn cid_idx(g: &mut GenCtx) -> usize {
     }
 }
 
+/// pointer to the contract id / call struct operand into R_T1
+fn cid_ptr(g: &mut GenCtx, idx: usize, out: &mut Vec<Instruction>) {
+    if g.knobs.special_ids && g.rng.chance(1, 3) {
+        match g.rng.below(if g.internal { 4 } else { 3 }) {
+            0 => out.push(op::move_(R_T1, RegId::ZERO)),                       // VM address 0: the transaction id
+            1 => out.push(op::movi(R_T1, 32)),                                 // VM address 32: base asset id (all zero here)
+            2 => { out.push(op::movi(R_T6, 48)); out.push(op::aloc(R_T6)); out.push(op::move_(R_T1, RegId::HP)); } // fresh heap
+            _ => out.push(op::move_(R_T1, RegId::FP)),                          // own contract id (listed)
+        }
+    } else {
+        out.push(op::addi(R_T1, R_BASE, OFF_CALLS + 48 * idx as u16));
+    }
+}
+
+/// fill the call-struct slots that do not hold a deployed contract with the special unlisted ids
+pub fn special_slots(call_ids: &mut [ContractId; N_CALLS], n_contracts: usize) {
+    let mut near = *call_ids[0]; near[31] ^= 1;
+    let sp = [ContractId::zeroed(), ContractId::new([0xff; 32]), ContractId::new(near)];
+    for (k, id) in sp.iter().enumerate() { if n_contracts + k < N_CALLS { call_ids[n_contracts + k] = *id; } }
+}
+
 fn call_block(g: &mut GenCtx, idx: usize, out: &mut Vec<Instruction>) {
     // a LIVE stack frame around the call ($sp > $ssp): locals with distinct words are stored before the CALL and read
     // back after the return (a mismatch reverts with the differing word), or registers are pushed / popped around it
@@ -135,7 +160,7 @@ fn call_block(g: &mut GenCtx, idx: usize, out: &mut Vec<Instruction>) {
         2 => out.push(op::pshl(mask)),
         _ => {}
     }
-    out.push(op::addi(R_T1, R_BASE, OFF_CALLS + 48 * idx as u16));
+    cid_ptr(g, idx, out);
     let asset = g.rng.below(2) as u16;
     out.push(op::addi(R_T2, R_BASE, OFF_ASSETS + 32 * asset));
     let coins = if g.knobs.coins && g.rng.chance(1, 3) { g.rng.below(5) as u32 } else { 0 };
@@ -245,7 +270,7 @@ pub fn block(g: &mut GenCtx, out: &mut Vec<Instruction>) {
         10 => {
             // balance / code size / code root / code copy of some contract
             let idx = cid_idx(g);
-            out.push(op::addi(R_T1, R_BASE, OFF_CALLS + 48 * idx as u16));
+            cid_ptr(g, idx, out);
             out.push(op::addi(R_T2, R_BASE, OFF_ASSETS));
             match g.rng.below(5) {
                 0 => out.push(op::bal(gp(g.rng), R_T2, R_T1)),
@@ -270,7 +295,7 @@ pub fn block(g: &mut GenCtx, out: &mut Vec<Instruction>) {
         11 => {
             // transfer to a contract
             let idx = cid_idx(g);
-            out.push(op::addi(R_T1, R_BASE, OFF_CALLS + 48 * idx as u16));
+            cid_ptr(g, idx, out);
             out.push(op::addi(R_T2, R_BASE, OFF_ASSETS + 32 * g.rng.below(2) as u16));
             out.push(op::movi(R_T3, if g.knobs.coins && !g.rng.chance(1, 12) { g.rng.range(1, 3) as u32 } else { 0 }));
             out.push(op::tr(R_T1, R_T3, R_T2));
@@ -412,6 +437,7 @@ pub fn gen_case_with(rng: &mut Rng, knobs: Knobs, gas_limit: Word, custom_script
         call_ids[i] = created.contract_id;
         deployed.push(i);
     }
+    if knobs.special_ids { special_slots(&mut call_ids, n_contracts); }
     // which deployed contracts are listed
     let mut listed = deployed.clone();
     let mut unlisted: Vec<usize> = (n_contracts..N_CALLS).collect();
@@ -466,15 +492,17 @@ pub fn gen_world_cases(rng: &mut Rng, knobs: Knobs, gas_limit: Word, k: usize) -
     let mut deployed = vec![];
     for i in 0..n_contracts {
         let callable: Vec<usize> = deployed.clone();
-        let mut g = GenCtx { rng, knobs, internal: true, callable, unlisted: vec![], self_idx: Some(i), depth: 0 };
+        let sp: Vec<usize> = if knobs.special_ids { (n_contracts..(n_contracts + 3).min(N_CALLS)).collect() } else { vec![] };
+        let mut g = GenCtx { rng, knobs, internal: true, callable, unlisted: sp, self_idx: Some(i), depth: 0 };
         g.knobs.max_blocks = knobs.max_blocks.min(5);
-        g.knobs.unlisted_pm = 0;
+        g.knobs.unlisted_pm = if knobs.special_ids { 250 } else { 0 };
         let code = program(&mut g);
         let bal = Some((assets[rng.below(2) as usize], 10 + rng.below(1000)));
         let created = tb.setup_contract(code, bal, None);
         call_ids[i] = created.contract_id;
         deployed.push(i);
     }
+    if knobs.special_ids { special_slots(&mut call_ids, n_contracts); }
     let storage = tb.get_storage().clone();
     let mut out = vec![];
     for _ in 0..k {
@@ -534,10 +562,11 @@ pub fn fixed_case(seed: u64, contracts: &[Vec<Instruction>], script: Vec<Instruc
     for c in call_ids.iter_mut() { *c = ContractId::new(rng.arr32()); }
     let mut deployed = vec![];
     for (i, code) in contracts.iter().enumerate() {
-        let created = tb.setup_contract(code.clone(), None, None);
+        let created = tb.setup_contract(code.clone(), Some((assets[0], 1_000)), None);
         call_ids[i] = created.contract_id;
         deployed.push(i);
     }
+    special_slots(&mut call_ids, contracts.len());
     let mut data = Vec::with_capacity(DATA_LEN);
     for i in 0..N_CALLS {
         data.extend_from_slice(call_ids[i].as_ref());
